@@ -220,19 +220,24 @@ func (h CarHeader) Matches(other CarHeader) bool {
 		return h.Roots[0].Equals(other.Roots[0])
 	}
 
-	// Check other contains all roots.
+	// Check that every root is matched by a root of other that no earlier root was matched by:
+	// the two lists have the same length, so they then hold the same roots the same number of times.
 	// TODO: should this be optimised for cases where the number of roots are large since it has O(N^2) complexity?
+	matched := make([]bool, thisLen)
 	for _, r := range h.Roots {
-		if !other.containsRoot(r) {
+		if !other.matchUnmatchedRoot(r, matched) {
 			return false
 		}
 	}
 	return true
 }
 
-func (h *CarHeader) containsRoot(root cid.Cid) bool {
-	for _, r := range h.Roots {
-		if r.Equals(root) {
+// matchUnmatchedRoot marks the first root of h that equals root and is not yet marked in matched,
+// and reports whether there was one.
+func (h *CarHeader) matchUnmatchedRoot(root cid.Cid, matched []bool) bool {
+	for i, r := range h.Roots {
+		if !matched[i] && r.Equals(root) {
+			matched[i] = true
 			return true
 		}
 	}
